@@ -175,7 +175,12 @@ LPop ==
     /\ lpc = "pop" /\ qmx = ""
     /\ IF qbytes > 0
        THEN /\ qbytes' = qbytes - 1
-            /\ fullWaiting' = IF qbytes - 1 <= MaxQ /\ qbytes > MaxQ THEN {} ELSE fullWaiting
+            \* notify_all at the crossing ("one_wake" \in Fix: a deliberately broken variant that wakes
+            \* a single waiter, used as a necessity config)
+            /\ fullWaiting' = IF qbytes - 1 <= MaxQ /\ qbytes > MaxQ
+                              THEN (IF "one_wake" \in Fix /\ fullWaiting # {}
+                                    THEN fullWaiting \ {CHOOSE c \in fullWaiting : TRUE} ELSE {})
+                              ELSE fullWaiting
             /\ lpc' = "log"
        ELSE /\ moreCommits' = FALSE /\ lpc' = "top" /\ U(<<qbytes, fullWaiting>>)
     /\ IF qbytes > 0 THEN U(moreCommits) ELSE TRUE
